@@ -46,7 +46,7 @@ def main():
     sdir = os.path.join(VERIF, 'seeded')
     if not ids:
         ids = sorted(d for d in os.listdir(sdir) if os.path.isdir(os.path.join(sdir, d)))
-    respath = os.path.join(sdir, 'RESULTS.json')
+    respath = os.environ.get('SEED_RESULTS', os.path.join(sdir, 'RESULTS.json'))
     results = json.load(open(respath)) if os.path.exists(respath) else {}
     outdir = '/dev/shm/seedrun_out_%d' % os.getpid()
     for sid in ids:
